@@ -94,6 +94,8 @@ def call_recorder(pattern, summarise=None):
                     args.append(l[1])
                 elif l[0] == "term":
                     args.append(("term", l[1]))
+                elif l[0] == "array":
+                    args.append(("array", l[1]))
                 else:
                     ad = call.deref_addr(a)
                     args.append(("at", ad) if ad else shape(t))
